@@ -36,14 +36,14 @@ def make_case(seed, t, nmax, precs="sd", drivers=("gssv",), force=None):
         "stype": f.get("stype") or rng.choice(["NC", "NC", "NR"]),
         "colperm": f.get("colperm", rng.randint(0, 3)),
         "nprocs": f.get("nprocs") or rng.choice([1, 2, 2, 3, 4, 8, n + 3]),
-        "panel": f.get("panel") or rng.choice([1, 1, 2, 3, 8, 20]), "relax": f.get("relax") or rng.choice([1, 2, 6]),
+        "panel": f.get("panel") or rng.choice([1, 1, 2, 3, 8, 20]), "relax": (rng.choice(list(f["relax"])) if isinstance(f.get("relax"), (list, tuple)) else f.get("relax")) or rng.choice([1, 2, 6]),
         "maxsuper": f.get("maxsuper") or rng.choice([2, 4, 200]), "rowblk": rng.choice([1, 2, 4, 200]), "colblk": rng.choice([1, 2, 100]),
         "driver": f.get("driver") or rng.choice(list(drivers)),
         "u": f.get("u", rng.choice([1.0, 1.0, 0.5, 0.125, 0.0, round(rng.random(), 3)])),
         "perturb": f.get("perturb", rng.choice([0, 0, 1, 3])),
         "evlog": f.get("evlog", 0),
         "fill": f.get("fill"),
-        "fact": f.get("fact", 0), "trans": f.get("trans", 0), "symm": f.get("symm", 0), "lwork": f.get("lwork", 0),
+        "fact": f.get("fact", 0), "trans": f.get("trans", 0), "symm": f.get("symm", 0), "lwork": rng.choice(list(f["lwork"])) if isinstance(f.get("lwork"), (list, tuple)) else f.get("lwork", 0),
     }
     # tunables precondition (DESIGN §7-F8): a relaxed supernode may have up to `relax` columns, and every
     # size computed from maxsuper (work arrays, slot table) assumes relax <= maxsuper.
